@@ -145,6 +145,20 @@ def trig_partially_crossed_weighted(case):
     return False
 
 
+def trig_crossed_derived_with_free_source(case):
+    """a crossing contains a within-trial derived factor one of whose dependencies is not in that crossing (so a crossing
+    combination can be completed in several ways), and the block has MinimumTrials / Repeat (a trailing partial run)"""
+    F = _factors(case)
+    if not (_has_con(case, "MinimumTrials") or any(b["op"] in ("Repeat", "Merge") for b in _all_blocks(case["block"]))):
+        return False
+    for X in _crossings(case["block"]):
+        for i in X:
+            f = F[i - 1]
+            if f["kind"] == "d" and f["width"] == 1 and any(g not in X for g in f["deps"]):
+                return True
+    return False
+
+
 def trig_has_minimum_trials(case):
     return _has_con(case, "MinimumTrials")
 
@@ -183,6 +197,7 @@ def trig_any(case):
 
 
 TRIGGERS = {
+    "crossed_derived_with_free_source": trig_crossed_derived_with_free_source,
     "partially_crossed_weighted": trig_partially_crossed_weighted,
     "weighted_uncrossed_with_dependent": trig_weighted_uncrossed_with_dependent,
     "derived_of_simple_derived": trig_derived_of_simple_derived,
